@@ -119,6 +119,12 @@ KINDS = {
     "hyper-size": ("ReusableHyperOptimizer",
                    dict(methods=["greedy"], max_repeats=2, optlib="random",
                         parallel=False, minimize="size")),
+    # the compressed-contraction flavour: hits must also come back in the
+    # stored ORDER (compressed scores depend on it)
+    "hyper-compressed": ("ReusableHyperCompressedOptimizer",
+                         dict(chi=2, methods=["greedy-compressed"],
+                              max_repeats=2, optlib="random",
+                              parallel=False)),
     "rgreedy": ("ReusableRandomGreedyOptimizer",
                 dict(max_repeats=2, seed=0, accel=False, parallel=False)),
 }
@@ -521,15 +527,18 @@ def work(unit):
             for n2 in SUB_POOL:
                 d = tempfile.mkdtemp(prefix="c14s-", dir=root)
                 outs = []
-                for nm in (n1, n2):
+                for pi, nm in enumerate((n1, n2)):
                     spec = {"cfg": cfg, "dir": d, "name": nm}
                     r = subprocess.run(
                         [sys.executable, "-W", "ignore", "-c",
                          SUB.format(repo=REPO, verif=VERIF,
                                     spec=json.dumps(spec))],
                         capture_output=True, text=True,
+                        # (writer and reader run under DIFFERENT string
+                        # hash seeds, as two interpreters normally do)
                         env={**os.environ,
-                             "PYTHONDONTWRITEBYTECODE": "1"})
+                             "PYTHONDONTWRITEBYTECODE": "1",
+                             "PYTHONHASHSEED": str(11 + 31 * pi)})
                     if r.returncode != 0:
                         outs.append({"error": r.stderr[-400:]})
                         break
